@@ -2745,7 +2745,7 @@ class Partitions(Expr):
         from dask_expr import SetIndexBlockwise
 
         if isinstance(self.frame, Blockwise) and not isinstance(
-            self.frame, (BlockwiseIO, Fused, SetIndexBlockwise)
+            self.frame, (BlockwiseIO, Fused, SetIndexBlockwise, MapOverlap)
         ):
             operands = [
                 (
